@@ -422,6 +422,17 @@ impl<'a> EFIMemoryAreaIter<'a> {
     fn new(mmap_tag: &'a EFIMemoryMapTag) -> Self {
         let desc_size = mmap_tag.desc_size as usize;
         let mmap_len = mmap_tag.memory_map.len();
+        // Each descriptor is read as `EFIMemoryDesc`: it must fit into its
+        // `desc_size`-sized slot and every slot must be properly aligned.
+        assert!(
+            desc_size >= mem::size_of::<EFIMemoryDesc>(),
+            "`desc_size` must cover at least one `EFIMemoryDesc`. The MBI seems to be corrupt."
+        );
+        assert_eq!(
+            desc_size % mem::align_of::<EFIMemoryDesc>(),
+            0,
+            "`desc_size` must keep the descriptors aligned. The MBI seems to be corrupt."
+        );
         assert_eq!(mmap_len % desc_size, 0, "memory map length must be a multiple of `desc_size` by definition. The MBI seems to be corrupt.");
         Self {
             mmap_tag,
@@ -453,11 +464,16 @@ impl<'a> Iterator for EFIMemoryAreaIter<'a> {
 
         Some(desc)
     }
+
+    fn size_hint(&self) -> (usize, Option<usize>) {
+        let remaining = self.entries - self.i;
+        (remaining, Some(remaining))
+    }
 }
 
 impl ExactSizeIterator for EFIMemoryAreaIter<'_> {
     fn len(&self) -> usize {
-        self.entries
+        self.entries - self.i
     }
 }
 
